@@ -24,12 +24,12 @@ EXPLANATION = (
     "(numbers via float_eq of both as f64; strings/bools/arrays/objects via the payload's own equality; null == null); "
     "(4) the internal total order (which treats values of different types as Equal) does not leak: every call whose "
     "instantiated trait obligations put Ord/PartialOrd on a type mentioning Variable may occur only in compare's ordering "
-    "arms, sort, sort_by's comparator, min/max and min_by/max_by. Not decided: reflexivity/symmetry/trichotomy of float_eq's "
-    "arithmetic (value semantics)."
+    "arms, sort, sort_by's comparator, min/max and min_by/max_by. (5) numbers are equal by numeric value: the helper behind == on two numbers is enumerated path by path — exact equality gives true, and it is widened only by a rounding-noise tolerance (absolute tolerance below the smallest normal double, relative tolerance at most 2^-40), its decision tree is invariant under exchanging the operands (symmetry) and maps a == a to true (reflexivity). Not decided: the rounding behaviour of the floating-point operations themselves and trichotomy inside the tolerance band (value semantics)."
 )
 ASSUMPTIONS = [
     "Vec / BTreeMap / String / bool equality are element-wise / key+value / code-point / value equality (std)",
-    "float_eq's tolerance arithmetic is outside the structural clauses",
+    "'well-separated numbers' is read as: relative distance above 2^-40 for normal doubles, absolute distance of at least the smallest normal double near zero",
+    "JSON numbers are finite (no NaN), so a == a holds for the exact-equality test",
 ]
 
 
@@ -48,6 +48,7 @@ def run(ctx):
     ctx.attempt("check_gate", check_gate, ctx, lib)
     ctx.attempt("check_mapping", check_mapping, ctx, lib)
     ctx.attempt("check_equality", check_equality, ctx, lib)
+    ctx.attempt("check_number_equality", check_number_equality, ctx, lib)
     ctx.attempt("check_order_confined", check_order_confined, ctx, lib)
     n = check_accessors(ctx, lib, "accessor-table")
     ctx.floor("accessor-table", n, 100, "accessor decision paths walked")
@@ -259,3 +260,103 @@ def check_order_confined(ctx, lib):
         direct = [t["callee"] for bb, t in ip.calls() if re.match(r"^std::cmp::(PartialEq|PartialOrd|Ord)::", t["callee"]) and
                   any("variable::Variable" in a for a in t.get("callee_args", []))]
         ctx.check(not direct, rule, "interpret-delegates", f"the evaluator compares values only through Variable::compare (direct comparisons: {direct})", ip.span)
+
+
+# ---------------------------------------------------------------------------
+MIN_POSITIVE = 2.2250738585072014e-308
+REL_BOUND = 2.0 ** -40
+
+
+def check_number_equality(ctx, lib, rule="number-equality"):
+    """Numbers are equal 'by numeric value': the helper behind `==` on two numbers is exact equality
+    widened by at most a rounding-noise tolerance. Its paths are enumerated symbolically; each result must be
+    true under a == b, a comparison `distance < t`, or false, where an absolute tolerance may not reach the
+    smallest normal double (so zero never equals a non-zero normal number) and a relative tolerance may not
+    exceed 2^-40 (so numbers that differ visibly are ordered, not equal). The path set must be invariant under
+    exchanging the operands (symmetry) and map a == b to true (reflexivity)."""
+    from .. import floatpaths as FP
+    b = ctx.fn("variable::float_eq", rule=rule)
+    if b is None:
+        return
+    try:
+        paths = FP.enumerate_paths(b)
+    except FP.Undecided as e:
+        ctx.bad(rule, "paths", f"number-equality helper not decidable: {e}", b.span)
+        return
+    ctx.check(bool(paths), rule, "paths", f"{len(paths)} paths of the number-equality helper enumerated", b.span)
+    A, B = ("param", 1), ("param", 2)
+    exact = FP.canon(("bin", "Eq", A, B))
+    dist = FP.canon(("abs", ("bin", "Sub", A, B)))
+    scales = {FP.canon(x) for x in (
+        ("bin", "Add", ("abs", A), ("abs", B)), ("max", ("abs", A), ("abs", B)), ("min", ("abs", A), ("abs", B)))}
+    # symmetry
+    # (as a decision function over its tests, not as a set of paths: `p(a) || p(b)` short-circuits asymmetrically)
+    import itertools
+    atoms = sorted({c for conds, _ in paths for c, _ in conds} | {FP.canon(FP.swap(c)) for conds, _ in paths for c, _ in conds}, key=repr)
+    asym = []
+    if len(atoms) > 10:
+        ctx.bad(rule, "symmetric", f"too many distinct tests ({len(atoms)}) to decide symmetry", b.span)
+    else:
+        def decide(sigma):
+            hit = [res for conds, res in paths if all(sigma[c] == v for c, v in conds)]
+            return hit[0] if len(hit) == 1 else None
+        for vals in itertools.product((False, True), repeat=len(atoms)):
+            sigma = dict(zip(atoms, vals))
+            sigma2 = {c: sigma[FP.canon(FP.swap(c))] for c in atoms}
+            r1, r2 = decide(sigma), decide(sigma2)
+            if r1 is None or r2 is None:
+                asym.append("paths are not exclusive and exhaustive")
+                break
+            if FP.canon(FP.swap(r2)) != r1:
+                asym.append(f"{FP.fmt(r1)} vs {FP.fmt(FP.canon(FP.swap(r2)))}")
+                break
+        ctx.check(not asym, rule, "symmetric",
+                  f"the helper's decision function is invariant under exchanging its operands (== is symmetric on numbers){': ' + asym[0] if asym else ''}", b.span)
+    # reflexivity + tolerance forms
+    refl = True
+    n_abs = n_rel = 0
+    for conds, res in paths:
+        cd = dict(conds)
+        where = " and ".join(("" if v else "not ") + FP.fmt(c) for c, v in sorted(conds, key=repr)) or "always"
+        if cd.get(exact) is True:
+            ok = res == ("const", 1) or res == ("const", True) or res == ("const", "true")
+            refl = refl and ok
+            ctx.check(ok, rule, "exact-equal-is-equal", f"a == b gives true ({FP.fmt(res)})", b.span)
+            continue
+        if res[0] == "const":
+            truthy = res[1] in (1, True, "true")
+            ctx.check(not truthy, rule, f"constant-true:{where[:60]}", f"[{where}] the helper answers `true` without comparing the operands", b.span)
+            if exact not in cd:
+                refl = False
+            continue
+        if res == exact:
+            continue
+        form = None
+        if res[0] == "bin" and res[1] in ("Lt", "Le") and res[3][0] == "const" and isinstance(res[3][1], float):
+            lhs, t = res[2], res[3][1]
+            if lhs == dist:
+                form = ("absolute", t)
+            elif lhs[0] == "bin" and lhs[1] == "Div" and lhs[2] == dist and lhs[3] in scales:
+                form = ("relative", t)
+        elif res[0] == "bin" and res[1] in ("Lt", "Le") and res[2] == dist and res[3][0] == "bin" and res[3][1] == "Mul":
+            x, y = res[3][2], res[3][3]
+            for c, sc in ((x, y), (y, x)):
+                if c[0] == "const" and isinstance(c[1], float) and sc in scales:
+                    form = ("relative", c[1])
+        if form is None:
+            ctx.bad(rule, f"tolerance-form:{where[:60]}", f"[{where}] result {FP.fmt(res)} is neither exact equality nor a recognised `distance < tolerance` test", b.span)
+            refl = False
+            continue
+        kind, t = form
+        if exact not in cd and not t > 0:
+            refl = False
+        if kind == "absolute":
+            n_abs += 1
+            ctx.check(0 <= t <= MIN_POSITIVE, rule, "absolute-tolerance",
+                      f"[{where}] |a - b| < {t!r}: an absolute tolerance stays below the smallest normal double {MIN_POSITIVE!r}, so 0 equals no non-zero normal number", b.span)
+        else:
+            n_rel += 1
+            ctx.check(0 <= t <= REL_BOUND, rule, "relative-tolerance",
+                      f"[{where}] relative distance < {t!r}: at most 2^-40, so numbers that differ beyond rounding noise are never equal", b.span)
+    ctx.check(refl, rule, "reflexive", "a == a is true on every path (exact equality is tested first, or the tolerance is positive)", b.span)
+    ctx.analysed["number_equality_paths"] = len(paths)
